@@ -1,6 +1,9 @@
 package props
 
 import (
+	"crypto/ecdsa"
+	"crypto/x509"
+
 	"verifharness/mon"
 	"verifharness/ref"
 	"verifharness/world"
@@ -26,7 +29,27 @@ func VerifyProblem(c *world.Case) string {
 
 // FuzzWorld returns a deterministic-shape honest world frozen at the CRL level (keys are fresh per call).
 func FuzzWorld(seed int64) *world.Case {
+	c, _, _, _ := FuzzWorldWithSigner(seed)
+	return c
+}
+
+// FuzzWorldWithSigner also returns the TCB signer's private key (PKCS#8 DER) and the two signed member texts, so that a fuzz
+// target can re-sign mutated documents and reach the code behind the signature check.
+func FuzzWorldWithSigner(seed int64) (c *world.Case, signerPKCS8 []byte, tcbMember, qeMember string) {
 	x := mon.NewCtx("FUZZ", "quick", seed, "", "")
 	w := world.Honest(x.Rand("fuzzworld"), world.HonestOpts{Shape: world.QuoteShape{AuthLen: 32}})
-	return w.Case(world.LCrl, "fuzz", "")
+	der, err := x509.MarshalPKCS8PrivateKey(w.PKI.TcbSign.Key)
+	if err != nil {
+		panic(err)
+	}
+	return w.Case(world.LCrl, "fuzz", ""), der, w.Tcb.JSON(), w.Qe.JSON()
+}
+
+// SignedBody exposes the harness's collateral signer to the fuzz targets.
+func SignedBody(member, raw string, pkcs8 []byte) []byte {
+	k, err := x509.ParsePKCS8PrivateKey(pkcs8)
+	if err != nil {
+		panic(err)
+	}
+	return world.SignedBody(member, raw, k.(*ecdsa.PrivateKey))
 }
